@@ -1,6 +1,7 @@
 CONSTANTS
   CasesFile = "cases.ndjson"
   SwResetCanCatchField = TRUE
+  SwResetCanCatchElem = TRUE
   SwResetExitFieldP = TRUE
   SwResetExitFieldV = TRUE
   SwResetExitElemP = TRUE
